@@ -55,7 +55,7 @@ pub fn profile(name: &str) -> Profile {
         "reject" => Profile { name: "reject", reject_pct: 12, restart_pct: 3, ..base },
         "restart" => Profile { name: "restart", restart_pct: 8, alo_pct: 0, multi_unit_pct: 0, ..base },
         "restart_any" => Profile { name: "restart_any", restart_pct: 8, reject_pct: 5, alo_pct: 30, multi_unit_pct: 6, clock_back_pct: 15, ..base },
-        "backends" => Profile { name: "backends", restart_pct: 4, reject_pct: 6, both_backends: true, ..base },
+        "backends" => Profile { name: "backends", restart_pct: 4, reject_pct: 6, peek_pct: 25, offset_pct: 20, multi_unit_pct: 5, both_backends: true, ..base },
         "marks" => Profile { name: "marks", marks_pct: 45, restart_pct: 10, ops: (6, 30), ..base },
         _ => panic!("unknown profile {}", name),
     }
@@ -360,7 +360,7 @@ fn json_str(s: &str) -> String {
     o
 }
 
-pub fn run_all(programs: Vec<Vec<String>>, outdir: &std::path::Path, g: &Geo, pname: &str) {
+pub fn run_all(programs: Vec<Vec<String>>, outdir: &std::path::Path, g: &Geo, pname: &str, pairs_from: Option<usize>) {
     std::fs::create_dir_all(outdir.join("programs")).unwrap();
     let n = programs.len();
     let results: Mutex<Vec<Option<RunResult>>> = Mutex::new((0..n).map(|_| None).collect());
@@ -432,6 +432,20 @@ pub fn run_all(programs: Vec<Vec<String>>, outdir: &std::path::Path, g: &Geo, pn
         for v in oracle::check(&cfg, g.cap as usize, (g.max_alloc - g.meta) as usize, &prog[1..], &res.outs) {
             writeln!(vio, "{}\t{}\t{}\t{}", v.prop, k, v.line, v.msg).unwrap();
         }
+        // C16: programs come in (fd, mmap) pairs; the two backends must answer every operation identically
+        if let Some(first) = pairs_from {
+            if k >= first && (k - first) % 2 == 1 {
+                let other = results[k - 1].as_ref().unwrap();
+                for (j, (a, b)) in other.outs.iter().zip(res.outs.iter()).enumerate() {
+                    if a != b {
+                        writeln!(vio, "C16\t{}\t{}\t`{}` -> fd backend: {} / mmap backend: {}", k, j + 1, prog.get(j + 1).map(|s| s.as_str()).unwrap_or("?"), a, b).unwrap();
+                        *hist.entry("backend_pairs_differing".into()).or_default() += 1;
+                        break;
+                    }
+                }
+                *hist.entry("backend_pairs_compared".into()).or_default() += 1;
+            }
+        }
     }
     ops.flush().unwrap();
     imp.flush().unwrap();
@@ -483,7 +497,7 @@ pub fn main(args: &[String]) {
             programs.push(gen_program(&mut r, &g, &p, backend, k as u64));
         }
     }
-    run_all(programs, &outdir, &g, p.name);
+    run_all(programs, &outdir, &g, p.name, if p.both_backends { Some(ncorpus) } else { None });
     std::fs::write(outdir.join("corpus_count.txt"), format!("{}\n", ncorpus)).unwrap();
 }
 
@@ -491,5 +505,13 @@ pub fn replay(args: &[String]) {
     let lines: Vec<String> = std::fs::read_to_string(&args[0]).unwrap().lines().map(|s| s.to_string()).filter(|l| !l.starts_with('#') && !l.is_empty()).collect();
     let outdir = std::path::PathBuf::from(&args[1]);
     let g = geo();
-    run_all(vec![lines], &outdir, &g, "replay");
+    if std::env::var("VERIF_BOTH_BACKENDS").is_ok() {
+        let mut a = lines.clone();
+        a[0] = a[0].replace(" mmap", " fd");
+        let mut b = lines.clone();
+        b[0] = b[0].replace(" fd", " mmap");
+        run_all(vec![a, b], &outdir, &g, "replay", Some(0));
+    } else {
+        run_all(vec![lines], &outdir, &g, "replay", None);
+    }
 }
